@@ -51,3 +51,16 @@ pub assume_specification<'a, K, V, S, A, Q> [std::collections::HashMap::<K, V, S
     };
 pub broadcast axiom fn axiom_str_mutated<V>(m1: Map<String, V>, m2: Map<String, V>, k: &str, v: V)
     ensures #[trigger] mutated_at_borrowed_key::<String, V, str>(m1, m2, k, v) <==> m2 == m1.insert(skey(k@), v);
+// `impl AsRef<str>` arguments (rule R27)
+pub uninterp spec fn as_ref_str_view<T>(t: T) -> Seq<char>;
+pub broadcast axiom fn axiom_as_ref_str_view_str(s: &str)
+    ensures #[trigger] as_ref_str_view::<&str>(s) == s@;
+pub broadcast axiom fn axiom_as_ref_str_view_string(s: String)
+    ensures #[trigger] as_ref_str_view::<String>(s) == s@;
+pub broadcast axiom fn axiom_as_ref_str_view_string_ref(s: &String)
+    ensures #[trigger] as_ref_str_view::<&String>(s) == s@;
+pub broadcast group as_ref_str_axioms { axiom_as_ref_str_view_str, axiom_as_ref_str_view_string, axiom_as_ref_str_view_string_ref }
+#[verifier::external_body]
+fn verif_as_ref_str<T: AsRef<str>>(t: &T) -> (r: &str)
+    ensures r@ == as_ref_str_view(*t)
+{ t.as_ref() }
